@@ -431,11 +431,19 @@ def uncommitted_tail(cx):
     g = cx.pg(f)
     name = fn_name(f)
     sizes = set()
+    def csub(e):
+        return e[0] == "call" and (e[1].endswith("::checked_sub") or e[1].endswith("::saturating_sub")) and len(e[2]) == 2 and is_f(e[2][0], UNC)
     for lits, v, b in g.returns(limit=2000):
         for l in lits:
             if l[0] == "is" and l[1][0] == "bin" and l[1][1] == "Lt" and is_f(l[1][2], UNC):
                 sizes.add(l[1][3])
-    cx.check(len(sizes) == 1, name + ":size", "the released size is compared with the outstanding size (uncommitted_size < size)")
+            if l[0] == "in" and csub(l[1]):
+                sizes.add(l[1][2][1])
+    for s_ in [x for x in cx.prog.writes.get(UNC, []) if x.fn is f and "stmt" in x.data]:
+        for x in walk(write_value(cx, s_)):
+            if csub(x):
+                sizes.add(x[2][1])
+    cx.check(len(sizes) == 1, name + ":size", "the released size is compared with / subtracted from the outstanding size (uncommitted_size < size, checked_sub, saturating_sub)")
     for size in sizes:
         closures = [x for x in walk(size) if x[0] == "closure"]
         skip = [x for x in walk(size) if x[0] == "call" and (x[1].endswith("::skip_while") or x[1].endswith("::filter"))]
@@ -487,12 +495,17 @@ def uncommitted_tail(cx):
         for s in [x for x in cx.prog.writes.get(UNC, []) if x.fn is f and "stmt" in x.data]:
             v = write_value(cx, s)
             lits = cx.guard_lits(s)
-            under = any(l[0] == "is" and l[2] is True and l[1] == ("bin", "Lt", l[1][2], size) and is_f(l[1][2], UNC) for l in lits if l[1][0] == "bin")
-            fits = any(l[0] == "is" and l[2] is False and l[1] == ("bin", "Lt", l[1][2], size) and is_f(l[1][2], UNC) for l in lits if l[1][0] == "bin")
+            cs = ("call", None)
+            under = any(l[0] == "is" and l[2] is True and l[1][0] == "bin" and l[1] == ("bin", "Lt", l[1][2], size) and is_f(l[1][2], UNC) for l in lits) or \
+                any(l[0] == "in" and l[2] == frozenset(["None"]) and csub(l[1]) and l[1][2][1] == size for l in lits)
+            fits = any(l[0] == "is" and l[2] is False and l[1][0] == "bin" and l[1] == ("bin", "Lt", l[1][2], size) and is_f(l[1][2], UNC) for l in lits) or \
+                any(l[0] == "in" and l[2] == frozenset(["Some"]) and csub(l[1]) and l[1][2][1] == size for l in lits)
             if v == ("int", 0):
                 cx.check(under, cx.site_key(s, "saturate"), "the counter is zeroed only when more is released than is outstanding", s)
+            elif v[0] == "call" and v[1].endswith("::saturating_sub") and csub(v) and v[2][1] == size:
+                cx.ok(cx.site_key(s, "decrease"), "uncommitted_size := uncommitted_size.saturating_sub(size)", s)
             else:
-                okv = v[0] == "bin" and v[1] == "Sub" and is_f(v[2], UNC) and v[3] == size
+                okv = (v[0] == "bin" and v[1] == "Sub" and is_f(v[2], UNC) and v[3] == size) or (v[0] == "vfield" and csub(v[1]) and v[1][2][1] == size and v[1][1].endswith("::checked_sub"))
                 cx.check(okv and fits, cx.site_key(s, "decrease"), "otherwise the counter decreases by exactly the released size (found %s)" % show(v)[:120], s)
             n += 1
     cx.check(n >= 4, "floor", "tail-index sites were found")
